@@ -68,6 +68,7 @@ static void start_watchdog_once()
 
 static void sink_a(const char* id, int64_t a, int64_t b)
 {
+    if (id[0] == 'w' || id[0] == 'e' || (id[0] == 'q' && id[1] == 'e')) return;   // window / exit / qexit: search-tree points (harness/tree.cpp)
     if (!strcmp(id, "stop_call")) { ++SA.seen[id]; return; }     // (a stop call is not progress of the search: the watchdog's own stop comes through here)
     g_activity.fetch_add(1, std::memory_order_relaxed);
     long n = ++SA.seen[id];
@@ -700,6 +701,7 @@ static std::thread::id stop_thread, search_thread;
 
 static void sink_b(const char* id, int64_t, int64_t)
 {
+    if (id[0] == 'w' || id[0] == 'e' || (id[0] == 'q' && id[1] == 'e')) return;   // search-tree points
     std::unique_lock<std::mutex> l(sm);
     long n = ++seenB[id];
     if (!strcmp(id, "stop_call")) { stop_seen = true; visits_after_stopB = 0; stop_thread = std::this_thread::get_id(); scv.notify_all(); return; }
